@@ -210,8 +210,9 @@ func runSCIONServer(ctx context.Context, log *slog.Logger, mtrcs *scionServerMet
 				log.LogAttrs(ctx, slog.LevelError, "failed to write packet", slog.Any("error", err))
 				continue
 			}
-			_, id, err := udp.ReadTXTimestamp(conn)
+			_, id, err := udp.ReadTXTimestampByID(conn, txid)
 			if err != nil {
+				txid++
 				log.LogAttrs(ctx, slog.LevelError, "failed to read packet tx timestamp",
 					slog.Any("error", err))
 			} else if id != txid {
@@ -305,8 +306,9 @@ func runSCIONServer(ctx context.Context, log *slog.Logger, mtrcs *scionServerMet
 				log.LogAttrs(ctx, slog.LevelError, "failed to write packet", slog.Any("error", err))
 				continue
 			}
-			_, id, err := udp.ReadTXTimestamp(conn)
+			_, id, err := udp.ReadTXTimestampByID(conn, txid)
 			if err != nil {
+				txid++
 				log.LogAttrs(ctx, slog.LevelError, "failed to read packet tx timestamp",
 					slog.Any("error", err))
 			} else if id != txid {
@@ -549,8 +551,9 @@ func runSCIONServer(ctx context.Context, log *slog.Logger, mtrcs *scionServerMet
 				log.LogAttrs(ctx, slog.LevelError, "failed to write packet", slog.Any("error", err))
 				continue
 			}
-			txt1, id, err := udp.ReadTXTimestamp(conn)
+			txt1, id, err := udp.ReadTXTimestampByID(conn, txid)
 			if err != nil {
+				txid++
 				txt1 = txt0
 				log.LogAttrs(ctx, slog.LevelError, "failed to read packet tx timestamp",
 					slog.Any("error", err))
